@@ -16,6 +16,7 @@
 
 #include <dirent.h>
 #include <fcntl.h>
+#include <ftw.h>
 #include <signal.h>
 #include <stdarg.h>
 #include <sys/syscall.h>
@@ -50,6 +51,30 @@ int g_ticks_total = 0;
 std::vector<int> g_opens_per_tick;
 Json::Value g_tree;
 bool g_in_fault = false;
+// identities (inode numbers) of the directories of a re-created subtree, before and after
+std::set<uint64_t> g_old_inodes, g_new_inodes;
+bool g_mixed = false;
+std::set<uint64_t> g_procs_dirs;  // directories whose cgroup.procs was read in this tick
+void evalMixing() {
+  bool o = false, n = false;
+  for (auto i : g_procs_dirs) {
+    if (g_old_inodes.count(i)) o = true; else if (g_new_inodes.count(i)) n = true;
+  }
+  if (o && n) g_mixed = true;
+  g_procs_dirs.clear();
+}
+
+int collectInodeCb(const char*, const struct stat* sb, int flag, struct FTW*);
+std::set<uint64_t>* g_collect_into = nullptr;
+void collectInodes(const std::string& p, std::set<uint64_t>& into) {
+  g_collect_into = &into;
+  ::nftw(p.c_str(), collectInodeCb, 64, FTW_PHYS);
+  g_collect_into = nullptr;
+}
+int collectInodeCb(const char*, const struct stat* sb, int flag, struct FTW*) {
+  if (flag == FTW_D && g_collect_into) g_collect_into->insert((uint64_t)sb->st_ino);
+  return 0;
+}
 
 const Json::Value* findNode(const Json::Value& n, const std::string& rel) {
   if (rel.empty()) return &n;
@@ -65,6 +90,7 @@ void applyFault(Fault& f) {
   std::string p = g_root + "/" + f.path;
   if (f.op == "rm") vh::rmrf(p);
   else if (f.op == "recreate") {
+    collectInodes(p, g_old_inodes);
     vh::rmrf(p);
     // a new directory (new inode) with the original content
     const Json::Value* n = findNode(g_tree, f.path);
@@ -73,6 +99,7 @@ void applyFault(Fault& f) {
     vh::mkdirs(hold);
     if (n) vh::materialize(p, *n); else vh::mkdirs(p);
     vh::rmrf(hold);
+    collectInodes(p, g_new_inodes);
   } else if (f.op == "empty") vh::writeFile(p, "");
   else if (f.op == "absent") ::unlink(p.c_str());
   else if (f.op == "deny") g_deny.insert(p);
@@ -84,6 +111,7 @@ void onOpen(const std::string& abs) {
   if (g_root.empty() || g_in_fault) return;
   if (abs.compare(0, g_root.size(), g_root) != 0) return;
   int k = g_open_count++;
+  if (getenv("VERIF_DBG")) fprintf(stderr, "DBG tick %d open %d %s\n", g_tick, k, abs.c_str() + g_root.size());
   for (auto& f : g_faults)
     if (!f.done && f.tick == g_tick && f.at_open == k && f.op != "vanish_on_readdir") applyFault(f);
 }
@@ -139,6 +167,11 @@ int openat(int dirfd, const char* path, int flags, ...) {
   if (!g_root.empty() && !g_in_fault && path[0] != '/' && dirfd != AT_FDCWD) {
     std::string abs = fdPath(dirfd) + "/" + path;
     onOpen(abs);
+    if (std::string(path) == "cgroup.procs") {
+      struct stat sb;
+      // the pids about to be signalled come from this directory (identity = inode)
+      if (::fstat(dirfd, &sb) == 0) g_procs_dirs.insert((uint64_t)sb.st_ino);
+    }
     if (g_deny.count(abs)) { errno = EACCES; return -1; }
   }
   return real(dirfd, path, flags, mode);
@@ -191,6 +224,7 @@ struct dirent64* readdir64(DIR* d) {
 
 int kill(pid_t pid, int sig) {
   g_kills.emplace_back((int)pid, sig);
+  if (getenv("VERIF_DBG")) fprintf(stderr, "DBG kill %d %d\n", (int)pid, sig);
   if (sig == 0) { errno = ESRCH; return -1; }   // liveness probe: the process is gone
   return 0;
 }
@@ -202,6 +236,7 @@ int sigtimedwait(const sigset_t*, siginfo_t*, const struct timespec* ts) {
   g_opens_per_tick.push_back(g_open_count);
   g_tick++;
   g_open_count = 0;
+  evalMixing();
   if (g_tick >= g_ticks_total) return SIGTERM;
   vh::advanceNs((ts ? ts->tv_sec : 5) * 1000000000LL);
   for (auto& f : g_faults)
@@ -355,6 +390,10 @@ void doTick(const Json::Value& sc, Json::Value& out) {
     g_faults.push_back(Fault{f["tick"].asInt(), f.get("at_open", -1).asInt(), f["op"].asString(), f["path"].asString(), Json::Value()});
   g_deny.clear();
   g_kills.clear();
+  g_old_inodes.clear();
+  g_new_inodes.clear();
+  g_mixed = false;
+  g_procs_dirs.clear();
   g_opens_per_tick.clear();
   g_tick = -1;
   g_open_count = 0;
@@ -382,6 +421,10 @@ void doTick(const Json::Value& sc, Json::Value& out) {
   for (size_t i = 1; i < g_opens_per_tick.size(); i++) os.append(g_opens_per_tick[i]);
   out["opens"] = os;
   out["ticks_done"] = g_tick;
+  // within one tick cgroup.procs was read both from the removed incarnation of a re-created subtree and from the
+  // new one: the kill descended from the old victim into a different cgroup that happens to have the same path
+  evalMixing();
+  out["mixed_incarnations"] = g_mixed;
   g_root.clear();
   g_procdir.clear();
   g_dtype_unknown = false;
